@@ -3,6 +3,8 @@ from __future__ import annotations
 from enum import IntEnum
 from typing import TYPE_CHECKING
 
+from safeds_stubgen import is_internal
+
 if TYPE_CHECKING:
     from safeds_stubgen.api_analyzer import Module
 
@@ -81,7 +83,9 @@ def _get_shortest_public_reexport(
 
             for qualified_import in module.qualified_imports:
                 if _module_name_check(qualified_import.qualified_name):
-                    module_ids.add((module.id, qualified_import.alias))
+                    # An import under an internal alias does not reexport anything
+                    if qualified_import.alias is None or not is_internal(qualified_import.alias):
+                        module_ids.add((module.id, qualified_import.alias))
                     break
 
             for wildcard_import in module.wildcard_imports:
